@@ -20,7 +20,8 @@ MCFieldSet(c) ==
       d \in BOOLEAN,
       m \in (IF HasTrait(c, "DerefMut") THEN BOOLEAN ELSE {FALSE}),
       t \in (IF \E v \in 1..NVariants(c) : \E i \in FieldIdx(c, v) : c.variants[v].fields[i].ty # "P" THEN {"P"}   \* one reference field at most
-             ELSE IF HasTrait(c, "DerefMut") THEN {"P", "refmut"} ELSE {"P", "ref", "refmut"}) }
+             \* ("refref": a reference to a reference -- the target is still the innermost referent)
+             ELSE IF HasTrait(c, "DerefMut") THEN {"P", "refmut"} ELSE {"P", "ref", "refmut", "refref"}) }
 \* bounded instance: in a two-variant enum one variant is the plain `V(P)`
 PlainVar(var) ==
   /\ var.style = "tuple" /\ Len(var.fields) = 1
